@@ -47,6 +47,8 @@ func validityMulti() []Op {
 		{Intents: []IntentSpec{{Owner: "A", Prio: 10, Frag: "vg"}, {Owner: "C", Prio: 30, Frag: "vm5"}}},
 		{Intents: []IntentSpec{{Owner: "A", Prio: 10, Delete: true}, {Owner: "B", Prio: 20, Frag: "vh1"}}},
 		{Intents: []IntentSpec{{Owner: "A", Prio: 10, Frag: "vg"}, {Owner: "B", Prio: 20, Frag: "vh1"}}},
+		{Intents: []IntentSpec{{Owner: "A", Prio: 10, Frag: "vh1"}, {Owner: "B", Prio: 20, Frag: "vhL"}}},
+		{Intents: []IntentSpec{{Owner: "A", Prio: 10, Delete: true}, {Owner: "B", Prio: 20, Delete: true}}},
 	}
 }
 
@@ -370,9 +372,9 @@ func runC04() int {
 	rep.Assumptions = append(append([]string{}, commonAssumptions...),
 		"the reference validator (harness/h/refvalid.go) encodes the explicit constraints of the universe schema only; type-level refusals at request conversion time are not judged",
 		"validator switch runs use a smaller depth bound than the all-validators-on run")
-	depth := 2
+	depth := 3
 	if Tier() == "thorough" {
-		depth = 3
+		depth = 4
 	}
 	cov := map[string]any{}
 	var total, states int64
@@ -404,12 +406,12 @@ func runC04() int {
 	for _, sw := range validatorSwitches {
 		v := &dconfig.Validation{}
 		sw.Set(&v.DisabledValidators)
-		if err := runOne("off-"+sw.Name, C04Checker{DisabledClass: sw.Class, SwitchName: sw.Name}, v, depth-1); err != nil {
+		if err := runOne("off-"+sw.Name, C04Checker{DisabledClass: sw.Class, SwitchName: sw.Name}, v, 2); err != nil {
 			return fail(err)
 		}
 	}
 	// sequential validation must give the same verdicts
-	if err := runOne("sequential", C04Checker{}, &dconfig.Validation{DisableConcurrency: true}, depth-1); err != nil {
+	if err := runOne("sequential", C04Checker{}, &dconfig.Validation{DisableConcurrency: true}, 2); err != nil {
 		return fail(err)
 	}
 	maxBlocks := 3
